@@ -89,6 +89,10 @@ pub struct QuerySpec {
     /// Plain projection instead of an aggregation (C02: queries that must be refused or
     /// redirected to synthetic data): list of (expr, alias).
     pub plain: Option<Vec<(String, String)>>,
+    /// A DP sub-query computed first and cross-joined as `s` (nested DP aggregation):
+    /// SQL of the sub-query, e.g. `SELECT avg(b.amount) AS m FROM orders AS b`.
+    #[serde(default)]
+    pub cte: Option<String>,
 }
 
 impl QuerySpec {
@@ -106,6 +110,9 @@ impl QuerySpec {
                     f.on.as_deref().unwrap_or("TRUE")
                 ));
             }
+        }
+        if self.cte.is_some() {
+            s.push_str(" CROSS JOIN s");
         }
         s
     }
@@ -137,6 +144,14 @@ impl QuerySpec {
     }
 
     pub fn sql_variant(&self, population: bool) -> String {
+        let body = self.sql_body(population);
+        match &self.cte {
+            None => body,
+            Some(c) => format!("WITH s AS ({}) {}", c, body),
+        }
+    }
+
+    fn sql_body(&self, population: bool) -> String {
         match &self.outer {
             None => self.inner_sql(population),
             Some(o) => {
